@@ -133,6 +133,9 @@ pub trait Extra {
 	async fn unit(&self, a: Vec<String>) -> RpcResult<()>;
 	#[method(name = "midmap", param_kind = map)]
 	async fn midmap(&self, a: Option<Point>, b: u64) -> RpcResult<(Option<Point>, u64)>;
+	/// wire names outside ASCII and with an apostrophe, by name
+	#[method(name = "uni", param_kind = map)]
+	fn uni(&self, #[argument(rename = "名前")] name: String, #[argument(rename = "it's")] q: Option<u8>, größe: i64) -> RpcResult<(String, Option<u8>, i64)>;
 	/// raw identifiers as parameter names, by name
 	#[method(name = "rawid", param_kind = map)]
 	fn rawid(&self, r#type: String, r#match: Option<u8>) -> RpcResult<(String, Option<u8>)>;
@@ -239,6 +242,9 @@ impl ExtraServer for Srv {
 	}
 	async fn midmap(&self, a: Option<Point>, b: u64) -> RpcResult<(Option<Point>, u64)> {
 		self.rec("midmap", (a, b))
+	}
+	fn uni(&self, name: String, q: Option<u8>, größe: i64) -> RpcResult<(String, Option<u8>, i64)> {
+		self.rec("uni", (name, q, größe))
 	}
 	fn rawid(&self, r#type: String, r#match: Option<u8>) -> RpcResult<(String, Option<u8>)> {
 		self.rec("rawid", (r#type, r#match))
@@ -431,6 +437,7 @@ pub enum Call17 {
 	GenCall(Shape, Option<Tagged>),
 	GenSub(Shape, Vec<Tagged>),
 	RawId(String, Option<u8>),
+	Uni(String, Option<u8>, i64),
 }
 
 #[derive(Clone, Debug, Serialize, Deserialize)]
@@ -476,6 +483,7 @@ fn arb_call() -> BoxedStrategy<Call17> {
 		2 => (arb_shape(), proptest::option::of(arb_tagged())).prop_map(|(a, b)| Call17::GenCall(a, b)),
 		2 => (arb_shape(), proptest::collection::vec(arb_tagged(), 0..4)).prop_map(|(a, b)| Call17::GenSub(a, b)),
 		2 => (arb_s(), proptest::option::of(any::<u8>())).prop_map(|(a, b)| Call17::RawId(a, b)),
+		2 => (arb_s(), proptest::option::of(any::<u8>()), arb_i64()).prop_map(|(a, b, c)| Call17::Uni(a, b, c)),
 	]
 	.boxed()
 }
@@ -872,6 +880,14 @@ impl SubCheck for Stubs {
 					let got = seen(ExtraClient::rawid(c, a.clone(), *b).await);
 					judge!("rawid", Some("e_rawid"), (a.clone(), *b), (a.clone(), *b), got);
 				}
+				Call17::Uni(a, b, cc) => {
+					opt_variation = b.is_none();
+					non_scalar = true;
+					let got = seen(ExtraClient::uni(c, a.clone(), *b, *cc).await);
+					judge!("uni", Some("e_uni"), (a.clone(), *b, *cc), (a.clone(), *b, *cc), got);
+					let first: Value = lb.wire.lock().first().and_then(|s| serde_json::from_str(s).ok()).unwrap_or(Value::Null);
+					obs.check(first["params"].get("名前").is_some() && first["params"].get("größe").is_some(), "c17/by-name-key-not-as-declared", || format!("{first}"));
+				}
 				Call17::GenCall(a, b) => {
 					non_scalar = true;
 					opt_variation = b.is_none();
@@ -968,7 +984,7 @@ fn to_camel(s: &str) -> String {
 }
 
 pub fn check(ctx: &mut Ctx) {
-	ctx.rule = "programs: a fixed family of 6 #[rpc(client, server)] traits / 21 methods compiled into the harness (0..4 params, trailing and non-trailing Options, unit return, a generic trait with a generic subscription item, param_kind array/map, #[argument(rename)], namespace with default and custom separator, aliases, sync/async/blocking, with_extensions, \
+	ctx.rule = "programs: a fixed family of 6 #[rpc(client, server)] traits / 22 methods compiled into the harness (0..4 params, trailing and non-trailing Options, unit return, a generic trait with a generic subscription item, param_kind array/map, #[argument(rename)], namespace with default and custom separator, aliases, sync/async/blocking, with_extensions, \
 		subscriptions with params / item types / notification-name override / unsubscribe aliases / by-name params / sync handler); inputs: generated argument values (integers at type boundaries, Unicode strings, nested structs, externally and internally tagged enums, Vec, BTreeMap, Option, tuples) and generated server results/errors. \
 		Each call goes stub -> real async client -> wire text -> Methods::raw_json_request -> server trait impl (which records its arguments). Also hand-built requests the stubs never emit: aliases, by-name requests with declared / snake_case / camelCase keys, trailing optionals omitted in arrays and objects. \
 		Oracle: the server method of that name ran once with arguments equal (PartialEq) to the stub's, the wire method name is the declared one, the client gets exactly the returned value / error object, subscription items arrive in order. Non-trivial = a non-scalar argument or an optional-tail variation; distinct by case value."
